@@ -108,6 +108,8 @@ def jobs(tier):
     nj("dup.running")
     nj("dup.idle.noloop", ST1=0, LOOPING=0, HASB=0, CTXP=0)
     nj("dup.persist", FL1=P)
+    nj("dup.stopped", ST1=3)
+    nj("dup.paused.noloop", ST1=2, LOOPING=0)
     nj("repl.running", FL1=R)
     nj("repl.idle.noloop", FL1=R, ST1=0, LOOPING=0)
     nj("repl.paused", FL1=R, ST1=2)
